@@ -25,8 +25,13 @@ impl Position {
 }
 //@item crates/axmos-db/src/tree/bplustree.rs | - | enum SearchResult
 
-pub struct Schema { pub nvalues: usize }
-impl Schema { pub fn num_values(&self) -> (r: usize) ensures r == self.nvalues { self.nvalues } }
+pub struct Schema { pub nvalues: usize, pub nkeys: usize }
+impl Schema {
+    pub fn num_values(&self) -> (r: usize) ensures r == self.nvalues { self.nvalues }
+    pub fn num_keys(&self) -> (r: usize) ensures r == self.nkeys { self.nkeys }
+    #[verifier::external_body]
+    pub fn num_columns(&self) -> (r: usize) ensures r == self.nvalues + self.nkeys { unimplemented!() }
+}
 
 pub uninterp spec fn keys_off(nvalues: usize) -> usize;
 
